@@ -38,3 +38,27 @@ Theorem annual_cost_positive K i n : 0 < K -> 0 < i -> 0 < n -> 0 < compute_annu
 Proof.
   intros HK Hi Hn. rewrite annual_cost_def. pose proof (crf_real_partial i n Hi Hn). apply Rmult_lt_0_compat; lra.
 Qed.
+
+(* the yearly charge exceeds straight-line repayment K/n: with crf_real_partial the factor is bracketed from below by
+   max(i, 1/n) for every real life *)
+Theorem crf_above_straight_line i n : 0 < i -> 0 < n -> / n < compute_capital_recovery_factor_R i n.
+Proof.
+  intros Hi Hn. rewrite crf_form.
+  pose proof (Rpower_gt1 (1 + i) n ltac:(lra) Hn) as Hq1.
+  assert (Hl : 0 < ln (1 + i)) by (rewrite <- ln_1; apply ln_increasing; lra).
+  assert (Hli : ln (1 + i) <= i).
+  { pose proof (exp_ineq1_le i) as He. destruct He as [He|He].
+    - left. rewrite <- (ln_exp i) at 2. apply ln_increasing; lra.
+    - right. rewrite He, ln_exp. reflexivity. }
+  set (x := n * ln (1 + i)). assert (Hx : 0 < x) by (unfold x; apply Rmult_lt_0_compat; lra).
+  assert (Hxi : x <= n * i) by (unfold x; apply Rmult_le_compat_l; lra).
+  assert (Hq : Rpower (1 + i) n = exp x) by reflexivity. rewrite Hq in *. clear Hq.
+  pose proof (exp_ineq1 (- x) ltac:(lra)) as Hm. rewrite exp_Ropp in Hm.
+  set (q := exp x) in *.
+  assert (Hqx : q - 1 < x * q).
+  { assert (q * (1 + - x) < q * / q) by (apply Rmult_lt_compat_l; lra). rewrite Rinv_r in H by lra. nra. }
+  assert (Hniq : q - 1 < n * i * q) by nra.
+  apply (Rmult_lt_reg_r (n * (q - 1))); [nra|].
+  replace (/ n * (n * (q - 1))) with (q - 1) by (field; lra).
+  replace (i * q / (q - 1) * (n * (q - 1))) with (n * i * q) by (field; lra). exact Hniq.
+Qed.
